@@ -82,6 +82,11 @@ func hisGetIntOfMode(mode string) func(pdf.Object) (pdf.Integer, error) {
 			fmt.Sscanf(mode[1:], "%d", &k)
 			return pdf.Integer(k), nil
 		}
+		if mode == "m" {
+			// a malformed-file error: the length is unknown, the extent is recovered
+			return 0, &pdf.MalformedFileError{Err: fmt.Errorf("no integer")}
+		}
+		// "e": a read error, which ReadStreamData hands on
 		return 0, fmt.Errorf("no integer")
 	}
 }
@@ -238,7 +243,7 @@ func runC04Corr(c *Ctx) {
 			}
 			pre := []byte(Pick(r, []string{"", "\n", "%x\n "}))
 			data := append(append([]byte(nil), pre...), region...)
-			mode := Pick(r, []string{"e", "v0", "v3", "v-1", "v100000", fmt.Sprintf("v%d", r.Intn(60))})
+			mode := Pick(r, []string{"e", "m", "v0", "v3", "v-1", "v100000", fmt.Sprintf("v%d", r.Intn(60))})
 			scalar := r.P(1, 6)
 			c.Emit(fmt.Sprintf("HIS rdobj %s %d %s %s", hexWire(data), 0, mode, hisBoolTag(scalar)), hisRdobjLine(data, 0, mode, scalar))
 			c.Stat("corr_rdobj")
@@ -291,7 +296,7 @@ func runC04Corr(c *Ctx) {
 			if r.P(1, 5) {
 				data = hisMutate(r, data)
 			}
-			mode := Pick(r, []string{"e", "v0", fmt.Sprintf("v%d", declared), fmt.Sprintf("v%d", len(body)), "v-1", fmt.Sprintf("v%d", r.Intn(40))})
+			mode := Pick(r, []string{"e", "m", "m", "v0", fmt.Sprintf("v%d", declared), fmt.Sprintf("v%d", len(body)), "v-1", fmt.Sprintf("v%d", r.Intn(40))})
 			c.Emit(fmt.Sprintf("HIS rdobj %s %d %s %s", hexWire(data), 0, mode, "0"), hisRdobjLine(data, 0, mode, false))
 			c.Stat("corr_rdobj_stream")
 		}
